@@ -275,6 +275,7 @@ pub fn judge(kind: &str, sc: &Scenario, i: usize, step: &Step, res: &StepResult,
     if res.threads >= 2 {
         rep.count("searches_with_two_or_more_threads_at_the_table", 1);
         rep.distinct(mix(res.signature, 3));
+        rep.aux_distinct("table_event_signatures", res.signature);
     }
     if res.cancel_seen {
         rep.count("searches_interrupted", 1);
@@ -332,6 +333,56 @@ fn chain(rng: &mut gen::R, corpus: &[Pos], ev: &Evaluator, rep: &mut Report) {
     }
 }
 
+/// An interrupted search of A, then a search of B = A without the man that A's reported first move
+/// moved (or captured) on the same memory: anything carried over from A's root is illegal in B.
+fn stale_root_move(rng: &mut gen::R, corpus: &[Pos], ev: &Evaluator, rep: &mut Report) {
+    let a = random_root(rng, corpus);
+    let (tables, buckets) = if rng.gen_bool(0.5) { (8, 1024) } else { random_geometry(rng) };
+    let mut sc = Scenario { tables, buckets, hasher_seed: rng.gen(), steps: vec![] };
+    let mut s = Step::new(&a.fen(), 6, *WORKERS.choose(rng).unwrap(), rng.gen());
+    if rng.gen_bool(0.7) {
+        s.depth = None;
+        s.cancel_at = Some(rng.gen_range(50..6000));
+    } else {
+        s.depth = Some(pick_depth(rng, a.men()).min(3));
+    }
+    sc.steps.push(s);
+    let mut first: Option<OMove> = None;
+    let mut ok = true;
+    sc.run(ev, |i, step, res| {
+        ok = judge("related", &sc, i, step, res, rep);
+        first = res.out.lines.last().and_then(|l| l.0.first().map(crate::conv::to_omove));
+        ok
+    });
+    let Some(m) = first else { return };
+    if !ok {
+        return;
+    }
+    // B: remove the mover (or, if that is the king, the captured man); other small edits now and then
+    let mut b = a.clone();
+    b.ep = None;
+    let victim = if a.b[m.from as usize].abs() != 6 { Some(m.from) } else if m.capture.is_some() && !m.ep { Some(m.to) } else { None };
+    let Some(v) = victim else { return };
+    b.b[v as usize] = 0;
+    for (bit, ksq, rsq, k, r) in [(WK, 4usize, 7usize, 6i8, 4i8), (WQ, 4, 0, 6, 4), (BK, 60, 63, -6, -4), (BQ, 60, 56, -6, -4)] {
+        if b.castle & bit != 0 && (b.b[ksq] != k || b.b[rsq] != r) {
+            b.castle &= !bit;
+        }
+    }
+    if !b.is_legal_position() || b.legal_moves().is_empty() || gen::q_cost(&b, 300_000) >= 300_000 {
+        return;
+    }
+    sc.steps.push(Step::new(&b.fen(), rng.gen_range(1..=3), *WORKERS.choose(rng).unwrap(), rng.gen()));
+    let last = sc.steps.len() - 1;
+    sc.run(ev, |i, step, res| {
+        if i == last {
+            judge("related", &sc, i, step, res, rep)
+        } else {
+            res.out.panic.is_none()
+        }
+    });
+}
+
 /// a few searches through the public entry point with the full-size table
 fn public_entry(rng: &mut gen::R, corpus: &[Pos], rep: &mut Report) {
     use weechess_engine::searcher::{Searcher, StatusEvent};
@@ -384,7 +435,7 @@ pub fn run(ctx: &Ctx, rep: &mut Report) {
         return;
     }
     let mut n = ctx.n(40_000, 1_000_000);
-    let kinds = ["single", "single", "rights", "rights", "ep", "ep", "jumps", "interrupted", "schedule", "schedule", "chain"];
+    let kinds = ["single", "related", "rights", "rights", "ep", "ep", "jumps", "interrupted", "schedule", "schedule", "chain", "related"];
     let mut k = 0usize;
     while n > 0 && ctx.time_left() {
         let kind = kinds[k % kinds.len()];
@@ -392,6 +443,11 @@ pub fn run(ctx: &Ctx, rep: &mut Report) {
         if kind == "chain" {
             chain(&mut rng, &corpus, &ev, rep);
             n = n.saturating_sub(5);
+            continue;
+        }
+        if kind == "related" {
+            stale_root_move(&mut rng, &corpus, &ev, rep);
+            n = n.saturating_sub(3);
             continue;
         }
         let sc = make_scenario(&mut rng, &corpus, kind);
